@@ -67,7 +67,7 @@ class Converter:
 
         Returns None if factor can't be determined.
         """
-        return NotImplemented
+        return None
 
 
 ConvMapT = Mapping[Tuple['Unit', 'Unit'], Tuple['Rational', 'Rational']]
